@@ -49,15 +49,20 @@ for e in sorted(findings, key=lambda e: (e["property"], e["id"])):
 out.append("")
 
 out.append("## Appendix G — seeded changes and which checks catch them (generated from seeded/*/meta.json)\n")
-out.append("`final` = the registered quick check of the property run against /repo ITSELF with the patch applied (git apply / ./check / git checkout), last pass of `tools_seeded.py`; `first` = at first confirmation, before any strengthening.\n")
-out.append("| id | breaks | site | needs to manifest | first confirmation: detected by | final pass (quick, /repo itself) |\n|---|---|---|---|---|---|")
+out.append("`final` = the registered quick check of the property run with the patch applied in the last pass of `tools_seeded.py` over ALL recorded changes: `scratch` = on a scratch worktree of /repo HEAD through `VERIF_REPO` (parallel pass, every id); `/repo itself` = `git -C /repo apply` / `./check` / `git -C /repo checkout -- .` (one id per property, and every id in the first final pass at 40 changes). `first` = at first confirmation, before any strengthening. Rounds: m1,m2 = round 1; m3,m4 = round 2; m5,m6 = round 3 (seeders were told which sites earlier rounds used).\n")
+out.append("| id | breaks | site | needs to manifest | first confirmation: detected by | final pass (quick) |\n|---|---|---|---|---|---|")
+def fin_str(fin, label):
+    if not fin: return ''
+    if not fin.get('applies', True): return f"{label}: patch does not apply on {fin.get('repo_head')}"
+    return (f"{label} @{fin.get('repo_head')}: {'DETECTED' if fin.get('detected') else 'missed'}, {fin.get('violation_lines')} VIOLATION lines, {fin.get('with_failing_input')} with a failing input")
 for d in sorted(glob.glob(os.path.join(ROOT, "seeded", "*", "meta.json"))):
     m = json.load(open(d))
     det = m.get("detected_by", {})
-    det_s = "; ".join(f"{k}: {esc(v, 90)}" for k, v in det.items()) if isinstance(det, dict) else esc(det, 300)
-    fin_path = os.path.join(os.path.dirname(d), 'final.json')
-    fin = json.load(open(fin_path)) if os.path.exists(fin_path) else {}
-    fin_s = (f"{'DETECTED' if fin.get('detected') else 'missed'} at {fin.get('repo_head')}: {fin.get('violation_lines')} VIOLATION lines, {fin.get('with_failing_input')} with a failing input" if fin else 'not run')
+    dd = os.path.dirname(d)
+    fin = json.load(open(os.path.join(dd, 'final.json'))) if os.path.exists(os.path.join(dd, 'final.json')) else {}
+    finr = json.load(open(os.path.join(dd, 'final_repo.json'))) if os.path.exists(os.path.join(dd, 'final_repo.json')) else {}
+    label = 'scratch' if 'scratch' in str(fin.get('mode', '')) else '/repo itself'
+    fin_s = '; '.join(x for x in [fin_str(fin, label), fin_str(finr, '/repo itself')] if x) or 'not run'
     first = m.get('detected_by_first_confirmation', det)
     first_s = "; ".join(f"{k}: {esc(v, 90)}" for k, v in first.items()) if isinstance(first, dict) else esc(first, 300)
     out.append(f"| {m.get('id')} | {esc(m.get('breaks',''), 160)} | {esc(m.get('site',''), 110)} | {esc(m.get('needs_to_manifest',''), 200)} | {first_s} | {fin_s} |")
